@@ -20,6 +20,11 @@ from spil import Sid, conf, SpilException, WriteToPaths, GetFromPaths, FindInPat
 CONFIG = envstr("VF_CONFIG", "local")
 ENTITIES = ["h/a/x/v1/m", "h/a/x/v1/b", "h/a/x/v2/m", "h/a/x/v1/g", "h/s/q1/v1/c"]
 SEARCHES = ["h/a/x/*/*", "h/a/x/v1/y", "h/a/x/v1/m", "h/a/**", "h/a/x/>/m", "h/*/**/c,m", "h/a/x/v9/m", "h/a/x/*", "h/*", "h/a/x/v1/*?ext=y"]
+if envstr("VF_ENTITIES", ""):         # another configuration: its own entities, searches, and the types it configures without a Getter
+    ENTITIES = envstr("VF_ENTITIES", "").split(";")
+    SEARCHES = envstr("VF_SEARCHES", "").split(";")
+NOGETTER = envstr("VF_NOGETTER", "p,a,s").split(",")
+NOGETTER_SID = envstr("VF_NOGETTER_SID", "h/a")
 SI = envint("VF_SI", 0)
 KEYS = ["comment", "author", "sid", "missing"]
 VALS = ["x", "a longer value", 7, "é"]
@@ -123,7 +128,7 @@ def all_vs_find(a1: int, e1: int) -> bool:
     _universe()
     search = SEARCHES[SI]
     attrs, enc = ATTRS[a1], ENCODERS[e1]
-    found = [s for s in FindInAll().find(search, as_sid=True) if s.type not in ("p", "a", "s")]
+    found = [s for s in FindInAll().find(search, as_sid=True) if s.type not in NOGETTER]
     recs = [dict(r) for r in GetFromAll().get(search, attributes=attrs, sid_encode=enc)]
     if len(recs) != len(found):
         return fail("record-count-differs-from-found-sids")
@@ -139,7 +144,7 @@ def all_vs_find(a1: int, e1: int) -> bool:
         return fail("get_data-is-not-the-sids-record")
     if GetFromAll().get_attr(sid, KEYS[d0 % 2]) != _expected(sid, None, str).get(KEYS[d0 % 2]):
         return fail("get_attr-is-not-one-value-of-the-record")
-    if dict(GetFromAll().get_data(Sid("h/a"))) != {}:
+    if dict(GetFromAll().get_data(Sid(NOGETTER_SID))) != {}:
         return fail("type-without-getter-yields-data")
     return True
 
